@@ -104,7 +104,16 @@ def worker(task):
                 V("C19", _sig(m, tid, "serialize", "wrong-bytes", rustwl._locate(m, enc, off)), dict(case, observed=e.get("hex"), first_diff=off))
                 continue
             res["c07"].setdefault(tid, []).append((json.dumps(v, sort_keys=True), e["hex"]))
-            if e.get("reparse_equals") is False and e.get("reparse_class") in (None, e.get("class")):
+            child_fails = False
+            if e.get("reparse_exc") and A.children_of(m.file, tid):
+                # the fallback object carries constraint values of a real child whose payload does not parse:
+                # its bytes are the parent's encoding, which Java (having no parent object) answers with the
+                # child's exception - the counterpart of specialize() = Err in Rust, see the parse side
+                try:
+                    child_fails = ("err",) in m.specialize(tid, v)[0]
+                except Abstain:
+                    child_fails = True
+            if e.get("reparse_equals") is False and e.get("reparse_class") in (None, e.get("class")) and not child_fails:
                 # (a fallback object whose payload happens to parse as a child legitimately reparses
                 # as that child: not comparable)
                 V("C19", _sig(m, tid, "parse", "reparse-of-own-bytes-not-equal", "value"),
